@@ -621,3 +621,12 @@ Example C07_ex_limit_max :
   /\ rn_has_ready node_max = Ok true
   /\ exists n' rd, rn_ready node_max = Ok (n', rd) /\ length (rd_entries rd) = 2%nat.
 Proof. vm_compute. repeat split; try reflexivity. eexists. eexists. split; reflexivity. Qed.
+
+(* explored falsifier of has_ready_iff that does NOT materialise: a size limit of 0
+   (max_committed_size_per_ready = 0) still hands out one entry, so has_ready = true is
+   matched by a non-empty Ready *)
+Example C07_ex_size_limit_zero :
+  let n := node2_mid <| rn_raft := (rn_raft node2_mid) <| r_max_committed_size_per_ready := 0 |> |> in
+  rn_has_ready n = Ok true
+  /\ exists n' lr, gen_light_ready n = Ok (n', lr) /\ lr_committed_entries lr = [e1].
+Proof. vm_compute. split; [reflexivity|]. eexists. eexists. split; reflexivity. Qed.
